@@ -79,9 +79,12 @@ def normal_only(label: str | None) -> bool:
 class BoolFacts:
     """Immutable-ish path state: truthiness facts on simple expressions."""
 
-    __slots__ = ("truth", "null", "last_def", "alias", "eq", "ne", "_key", "_eq_const")
+    __slots__ = ("truth", "null", "last_def", "alias", "eq", "ne", "defn", "_key", "_eq_const")
 
-    def __init__(self, truth=None, null=None, last_def=None, alias=None, eq=None, ne=None):
+    def __init__(self, truth=None, null=None, last_def=None, alias=None, eq=None, ne=None, defn=None):
+        # name -> boolean expression it was assigned (`manual = a and b is not None`):
+        # a later test of the name is a test of that expression
+        self.defn: dict[str, ast.AST] = defn or {}
         self.truth: dict[str, bool] = truth or {}
         self.null: dict[str, bool] = null or {}  # name -> is None?
         self.last_def: dict[str, Node] = last_def or {}
@@ -100,11 +103,12 @@ class BoolFacts:
                 frozenset(self.alias.items()),
                 frozenset(self.eq.items()),
                 frozenset(self.ne.items()),
+                frozenset((k, id(v)) for k, v in self.defn.items()),
             )
         return self._key
 
     def copy(self) -> "BoolFacts":
-        return BoolFacts(dict(self.truth), dict(self.null), dict(self.last_def), dict(self.alias), dict(self.eq), dict(self.ne))
+        return BoolFacts(dict(self.truth), dict(self.null), dict(self.last_def), dict(self.alias), dict(self.eq), dict(self.ne), dict(self.defn))
 
     # -- transfer
     def kill(self, name: str) -> None:
@@ -115,6 +119,10 @@ class BoolFacts:
         for k, v in list(self.alias.items()):
             if v == name or v.startswith(name + "."):
                 self.alias.pop(k, None)
+        self.defn.pop(name, None)
+        for k, e in list(self.defn.items()):
+            if any((dotted(x) or "") == name or (dotted(x) or "").startswith(name + ".") for x in ast.walk(e) if isinstance(x, (ast.Name, ast.Attribute))):
+                self.defn.pop(k, None)
 
     def assign(self, node: Node) -> None:
         a = node.ast
@@ -152,6 +160,12 @@ class BoolFacts:
                 cv = v.value if isinstance(v, ast.Await) else v
                 if isinstance(cv, ast.Call) and _ctor_like(cv):
                     self.null[d] = False
+            elif isinstance(v, (ast.BoolOp, ast.Compare)) or (isinstance(v, ast.UnaryOp) and isinstance(v.op, ast.Not)):
+                if not any(isinstance(x, (ast.Call, ast.Await, ast.NamedExpr)) for x in ast.walk(v)):
+                    self.defn[d] = v
+                    # what is already known about the expression is known about the name
+                    if self.holds(v) is not None:
+                        self.truth[d] = self.holds(v)
             elif isinstance(v, (ast.Name, ast.Attribute)):
                 src = dotted(v)
                 if src and _const_like(src):
@@ -168,6 +182,44 @@ class BoolFacts:
 
     def _alias(self, d: str) -> str | None:
         return self.alias.get(d)
+
+    def holds(self, expr: ast.AST) -> bool | None:
+        """Truth value of a boolean expression under the current facts, or None."""
+        t, f = self.copy(), self.copy()
+        can_be_true = t.apply_expr(expr, True)
+        can_be_false = f.apply_expr(expr, False)
+        if can_be_true and not can_be_false:
+            return True
+        if can_be_false and not can_be_true:
+            return False
+        return None
+
+    def apply_expr(self, expr: ast.AST, outcome: bool, depth: int = 0) -> bool:
+        """Assume `expr` evaluates to `outcome`; False if that contradicts the facts."""
+        if depth > 6:
+            return True
+        if isinstance(expr, ast.UnaryOp) and isinstance(expr.op, ast.Not):
+            return self.apply_expr(expr.operand, not outcome, depth + 1)
+        if isinstance(expr, ast.BoolOp):
+            conj = isinstance(expr.op, ast.And)
+            if outcome == conj:
+                # all conjuncts true / all disjuncts false
+                return all(self.apply_expr(v, outcome, depth + 1) for v in expr.values)
+            # some conjunct false / some disjunct true: decide it when only one can be
+            open_ = []
+            for v in expr.values:
+                probe = self.copy()
+                if probe.apply_expr(v, outcome, depth + 1):
+                    open_.append(v)
+            if not open_:
+                return False
+            if len(open_) == 1:
+                return self.apply_expr(open_[0], outcome, depth + 1)
+            return True
+        ok = self.test(expr, outcome)
+        if ok and isinstance(expr, ast.Name) and expr.id in self.defn:
+            return self.apply_expr(self.defn[expr.id], outcome, depth + 1)
+        return ok
 
     def test(self, expr: ast.AST, outcome: bool) -> bool:
         """Record outcome; False when it contradicts what is known."""
@@ -313,11 +365,29 @@ def _derefs(node: Node) -> tuple:
 def boolfacts_step(state: BoolFacts, node: Node, label: str | None):
     """Copy-on-write transfer: states are treated as immutable values."""
     if node.kind == "test" and label in ("T", "F") and node.ast is not None:
+        a = node.ast
+        neg = False
+        while isinstance(a, ast.UnaryOp) and isinstance(a.op, ast.Not):
+            a, neg = a.operand, not neg
+        if isinstance(a, ast.NamedExpr) and isinstance(a.target, ast.Name):
+            # `while chunk := read():` - the target is (re)bound, then tested
+            st = state.copy()
+            st.kill(a.target.id)
+            val = (label == "T") != neg
+            st.truth[a.target.id] = val
+            if val:
+                st.null[a.target.id] = False
+            return st
         if _classify(node.ast)[0] is None:
             return state
         st = state.copy()
         if not st.test(node.ast, label == "T"):
             return None
+        # a boolean local defined by an expression: the test is a test of that expression
+        key, kind, neg2 = _classify(node.ast)
+        if kind == "truth" and key in st.defn:
+            if not st.apply_expr(st.defn[key], (label == "T") != neg2):
+                return None
         return st
     if node.kind in ("stmt", "with"):
         a = node.ast
